@@ -15,34 +15,6 @@ corpus/C14/close-does-not-flush.ops, fix /verif/fixes/C14-close-flush.patch.
 namespace ActixNet.C14
 open ActixNet.Src ActixNet.Framed
 
-def winit (ws : List Wr) (fs ss : List Fl) : WState := { wscript := ws, fscript := fs, sscript := ss }
-
-/-- the encodings of the items accepted by `start_send` (= the sends that answered `Ok`), in order -/
-def acceptedOf {I} (enc : Enc I) : List (WOp I) → List WRes → List Bytes
-  | .send item :: ops, .ok :: rs =>
-    (match enc item with | .ok e => [e] | .error _ => []) ++ acceptedOf enc ops rs
-  | _ :: ops, _ :: rs => acceptedOf enc ops rs
-  | _, _ => []
-
-theorem accepted_eq {I} (enc : Enc I) : ∀ (ops : List (WOp I)) (s : WState),
-    (wrun enc s ops).2.accepted = s.accepted ++ acceptedOf enc ops (wrun enc s ops).1 := by
-  intro ops
-  induction ops with
-  | nil => intro s; simp [wrun, acceptedOf]
-  | cons op ops ih =>
-    intro s
-    simp only [wrun]
-    rw [ih]
-    cases op with
-    | send item =>
-      simp only [wstep, wsend]
-      cases h : enc item with
-      | error k => simp [acceptedOf]
-      | ok e => simp [acceptedOf, h]
-    | ready => simp only [wstep, acceptedOf]; rw [(wready_spec s).1.acc]
-    | flush => simp only [wstep, acceptedOf]; rw [(wflush_spec s).1.acc]
-    | close => simp only [wstep, acceptedOf]; rw [(wclose_spec s).1.acc]
-
 /-- **lossless and ordered**, in every reachable state: for every interleaving of the four `Sink`
 methods, every script of partial writes / `Pending`s / zero writes / errors of the transport, the
 bytes that reached the transport followed by the bytes still buffered are exactly the concatenation,
